@@ -16,12 +16,32 @@
        element-wise denotation, for every fuel, every store and every well-formed expression: the C01_opt_*_sound
        theorems at the end of this file; the table as it was BEFORE the repairs (fx = false) is refuted rule by rule
        with concrete witnesses (C01_opt_*_refuted), among them the still unrepaired range<diagonal_matrix> rule;
-   COMPARED / MONITORED only (tools/c01.py): that the C++ implements this model — generated programs,
-   exact comparison of compiled C++ (long/double, default kernels and CBLAS) against the extracted
-   interpreter and an independent evaluator; dense block kernels, OpenBLAS, sparse containers.
+     * SPARSE VECTOR STORAGE AND KERNELS (C01SparseModel.v: compressed_vector as coded in cpu/sparse.hpp - sorted index
+       array + value array + nnz + capacity, reserve / set_element / clear_range / clear - and the sparse cases of
+       kernels/default/vector_assign.hpp, loop by loop over iterator positions; abstraction sden = zero where nothing
+       is stored).  For all index lists, values, sizes, capacities and, for the functor kernels, ALL functors f:
+       the storage invariant (indices strictly increasing and < size, nnz <= capacity) is preserved by every
+       operation; plain assignment sparse<-sparse copies the stored sequence (denotation equality), dense<-sparse and
+       sparse<-dense realise the denotation (the latter stores every index); the functor kernels realise
+       target_i := f(target_i, source_i) for every i in the dense<-sparse case (also where nothing is stored, unless
+       the functor declares right_zero_identity, which then has to be true) and in the sparse<-dense case, and in
+       the sparse<-sparse case for every i stored on at least one side - positions stored on neither side are not
+       visited, so the element-wise meaning holds there iff f(0,0) = 0 (stated in the theorem); scalar forms on a
+       sparse target touch stored elements only.  The kernels as they were before the repairs 88237f8b / 245464d7
+       (found with this model) are refuted on the inputs that exposed them (C01_sparse_*_before_repair_refuted);
+   COMPARED / MONITORED only (tools/c01.py, tools/c01_sparse.py): that the C++ implements these models - generated
+   programs, exact comparison of compiled C++ (long/double, default kernels and CBLAS) against the extracted
+   interpreter and an independent evaluator; for the sparse part command sequences (storage operations, kernels with
+   six functors, plain / compound / noalias operator forms, mixed dense/sparse, both matrix orientations) are run by
+   harness/c01_sparse.cpp and by the extracted C01SparseExec.run_cmd and compared exactly INCLUDING capacities and the
+   stored index sequences, with an independent monitor of the storage invariant and of the element-wise meaning.
+   NOT PROVED: the compressed_matrix model (C01SparseMatModel.v) and the statement level (C01SparseExec.v: temporaries
+   of the plain forms, `-=` as `+=` of (-1)*e) are executable and compared on every run but have no theorems yet;
+   sparse EXPRESSIONS (a+b, c*a, a*b of sparse operands: the merging iterators of cpu/iterator.hpp) and
+   prod(sparse matrix, vector) are not modelled; dense block kernels, OpenBLAS.
    `vden`/`mden` ARE the documented meaning (quickref/remora.rst), written as Gallina. *)
 From Coq Require Import ZArith List Bool Arith Lia.
-From SharkV Require Import C01Model C01Proofs C01Opt C01OptProofs.
+From SharkV Require Import C01Model C01Proofs C01Opt C01OptProofs C01SparseModel C01SparseProofs C01SparseFunProofs.
 Import ListNotations.
 Open Scope Z_scope.
 
@@ -335,3 +355,129 @@ Theorem C01_opt_mrange_diag_refuted :
     mden s (opt_mrange false s fuel m a b c d) i j <> mden s (MRange m a b c d) i j.
 Proof. exact opt_mrange_diag_refuted. Qed.
 Print Assumptions C01_opt_mrange_diag_refuted.
+
+(* ======================================================================================================
+   SPARSE STORAGE AND KERNELS (C01SparseModel.v; run next to harness/c01_sparse.cpp on every check)
+   ====================================================================================================== *)
+
+(* BaseSparseVector::set_element at a legal iterator position keeps the storage invariant (indices strictly
+   increasing and below size, nnz <= capacity), returns the position behind the element, never shrinks the capacity,
+   and changes the denotation at exactly one index *)
+Theorem C01_sparse_set_element_correct : forall (v : svec) (pos idx : nat) (x : Z),
+  sv_inv v -> pos_ok v pos idx ->
+  let v' := fst (sv_set_element v pos idx x) in
+  sv_inv v' /\ snd (sv_set_element v pos idx x) = S pos /\ sv_size v' = sv_size v /\
+  (sv_cap v <= sv_cap v')%nat /\
+  (forall i, sden v' i = if (i =? idx)%nat then x else sden v i) /\
+  (forall i, stored v' i = (i =? idx)%nat || stored v i).
+Proof. exact set_element_correct. Qed.
+Print Assumptions C01_sparse_set_element_correct.
+
+Theorem C01_sparse_reserve_clear_inv : forall (v : svec) (n a b : nat), sv_inv v ->
+  (sv_inv (sv_reserve v n) /\ sv_el (sv_reserve v n) = sv_el v /\ (n <= sv_cap (sv_reserve v n))%nat) /\
+  ((a <= b)%nat -> sv_inv (sv_clear_range v a b)) /\
+  (sv_inv (sv_clear v) /\ sv_el (sv_clear v) = [] /\ sv_cap (sv_clear v) = sv_cap v).
+Proof.
+  intros v n a b H. split; [|split].
+  - destruct (reserve_correct v n H) as (A & B & _ & C). auto.
+  - intros L. apply clear_range_inv; auto.
+  - destruct (clear_correct v H) as (A & B & _ & C). auto.
+Qed.
+Print Assumptions C01_sparse_reserve_clear_inv.
+
+(* plain assignment kernels (vector_assign): sparse <- sparse, dense <- sparse, sparse <- dense *)
+Theorem C01_sparse_assign_ss_correct : forall v e : svec,
+  sv_inv v -> sv_inv e -> sv_size v = sv_size e ->
+  let r := k_assign_ss v e in
+  sv_inv r /\ sv_size r = sv_size v /\ sv_el r = sv_el e /\ (forall i, sden r i = sden e i).
+Proof. exact assign_ss_correct. Qed.
+Print Assumptions C01_sparse_assign_ss_correct.
+
+Theorem C01_sparse_assign_ds_correct : forall (d : dvec) (e : svec),
+  sv_inv e -> length d = sv_size e ->
+  length (k_assign_ds d e) = length d /\ (forall i, dden (k_assign_ds d e) i = sden e i).
+Proof. exact assign_ds_correct. Qed.
+Print Assumptions C01_sparse_assign_ds_correct.
+
+Theorem C01_sparse_assign_sd_correct : forall (v : svec) (e : dvec),
+  sv_inv v -> sv_size v = length e ->
+  let r := k_assign_sd v e in
+  sv_inv r /\ sv_size r = sv_size v /\ sv_nnz r = length e /\
+  (forall i, (i < length e)%nat -> stored r i = true) /\
+  (forall i, sden r i = dden e i).
+Proof. exact assign_sd_correct. Qed.
+Print Assumptions C01_sparse_assign_sd_correct.
+
+(* functor kernels (vector_assign_functor), for EVERY functor f : Z -> Z -> Z.
+   dense <- sparse (as repaired by c4c2dce0): every position gets f(target_i, source_i), also the positions without
+   stored counterpart; a functor that declares right_zero_identity must really satisfy f(x,0) = x *)
+Theorem C01_sparse_fun_ds_correct : forall (f : Z -> Z -> Z) (rzi : bool) (d : dvec) (e : svec),
+  sv_inv e -> length d = sv_size e -> (rzi = true -> forall x, f x 0 = x) ->
+  length (k_fun_ds f rzi d e) = length d /\
+  forall i, (i < length d)%nat -> dden (k_fun_ds f rzi d e) i = f (dden d i) (sden e i).
+Proof. exact fun_ds_correct. Qed.
+Print Assumptions C01_sparse_fun_ds_correct.
+
+(* sparse <- dense (as repaired by 245464d7): every index becomes stored with f(target_i, source_i) *)
+Theorem C01_sparse_fun_sd_correct : forall (f : Z -> Z -> Z) (v : svec) (e : dvec),
+  sv_inv v -> sv_size v = length e ->
+  let r := k_fun_sd true f v e in
+  sv_inv r /\ sv_size r = sv_size v /\
+  (forall i, (i < length e)%nat -> stored r i = true /\ sden r i = f (sden v i) (dden e i)).
+Proof. exact fun_sd_correct. Qed.
+Print Assumptions C01_sparse_fun_sd_correct.
+
+(* sparse <- sparse (as repaired by 88237f8b): the stored set becomes the union; an index stored on either side gets
+   f(target_i, source_i) (with 0 for the missing side); an index stored on NEITHER side is not visited and stays 0 -
+   this is the element-wise meaning exactly when f(0,0) = 0 (true for + - * and multiply_and_add; false e.g. for
+   x + g(y) with g(0) <> 0, which the code silently treats as if g(0) were 0 on those positions) *)
+Theorem C01_sparse_fun_ss_correct : forall (f : Z -> Z -> Z) (v e : svec),
+  sv_inv v -> sv_inv e -> sv_size v = sv_size e ->
+  let r := k_fun_ss true f v e in
+  sv_inv r /\ sv_size r = sv_size v /\
+  (forall i, stored r i = stored v i || stored e i) /\
+  (forall i, sden r i = if stored v i || stored e i then f (sden v i) (sden e i) else 0) /\
+  (f 0 0 = 0 -> forall i, sden r i = f (sden v i) (sden e i)).
+Proof. exact fun_ss_correct. Qed.
+Print Assumptions C01_sparse_fun_ss_correct.
+
+(* the stored sequence produced by the sparse <- sparse functor kernel is the merge of the two stored sequences
+   (the same function the matrix kernel uses for its temporary `elements` vector) *)
+Theorem C01_sparse_fun_ss_is_merge : forall (f : Z -> Z -> Z) (v e : svec),
+  sv_el (k_fun_ss true f v e) = C01SparseMatModel.merge_el f (sv_el v) (sv_el e).
+Proof. intros f v e. exact (proj1 (k_fun_ss_elems f v e)). Qed.
+Print Assumptions C01_sparse_fun_ss_is_merge.
+
+(* scalar forms x op= t on a sparse target visit the stored elements only (NOT the element-wise meaning of x_i op t
+   unless g(0) = 0) *)
+Theorem C01_sparse_scalar_stored_only : forall (g : Z -> Z) (v : svec),
+  sv_inv v -> sv_inv (k_apply_s g v) /\
+  (forall i, stored (k_apply_s g v) i = stored v i) /\
+  (forall i, sden (k_apply_s g v) i = if stored v i then g (sden v i) else 0).
+Proof. exact apply_s_correct. Qed.
+Print Assumptions C01_sparse_scalar_stored_only.
+
+(* the two kernels as they were before 88237f8b / 245464d7 violate the element-wise meaning on the inputs that
+   exposed the defects: x = {1:5, 3:7}, y = {0:2, 3:4, 5:9} (size 6), x += y; and x *= (1,2,3,4,5,6) *)
+Theorem C01_sparse_fun_ss_before_repair_refuted :
+  sv_inv wit_x /\ sv_inv wit_y /\
+  sden (k_fun_ss false Z.add wit_x wit_y) 5 = 0 /\ Z.add (sden wit_x 5) (sden wit_y 5) = 9 /\
+  sden (k_fun_ss true Z.add wit_x wit_y) 5 = 9.
+Proof. exact fun_ss_before_repair_refuted. Qed.
+Print Assumptions C01_sparse_fun_ss_before_repair_refuted.
+
+Theorem C01_sparse_fun_sd_before_repair_refuted :
+  sv_inv wit_x /\
+  sden (k_fun_sd false Z.mul wit_x [1; 2; 3; 4; 5; 6]) 0 = 1 /\ Z.mul (sden wit_x 0) 1 = 0 /\
+  sden (k_fun_sd true Z.mul wit_x [1; 2; 3; 4; 5; 6]) 0 = 0.
+Proof. exact fun_sd_before_repair_refuted. Qed.
+Print Assumptions C01_sparse_fun_sd_before_repair_refuted.
+
+(* the premises are satisfiable: an empty vector of size 0, a full one, and a legal insertion position *)
+Example C01_sparse_wf_examples :
+  sv_inv (sv_empty 0) /\ sv_inv (sv_empty 7) /\ sv_inv (mkSV 2 2 [(0%nat, 3); (1%nat, 0)]) /\
+  sv_inv wit_x /\ pos_ok wit_x 1 2 /\ pos_ok wit_x 2 5 /\ pos_ok (sv_empty 3) 0 2.
+Proof.
+  repeat split; try (vm_compute; repeat split; auto; lia);
+    try (intros e H; vm_compute in H; repeat (destruct H as [<-|H]; [cbn; lia|]); destruct H).
+Qed.
